@@ -46,6 +46,10 @@ class Acc:
     def fail(self, key, **detail):
         """key: short stable identification of WHAT fails (matched against known findings)."""
         self.nfails += 1
+        for f in self.fails:
+            if f['key'] == key:
+                f['count'] = f.get('count', 1) + 1
+                return
         if len(self.fails) < self.MAXF:
             d = {'key': key}
             d.update(detail)
@@ -61,9 +65,13 @@ class Acc:
         for s in o.samples:
             if len(self.samples) < self.MAXS:
                 self.samples.append(s)
+        have = {f['key']: f for f in self.fails}
         for f in o.fails:
-            if len(self.fails) < 4 * self.MAXF:
+            if f['key'] in have:
+                have[f['key']]['count'] = have[f['key']].get('count', 1) + f.get('count', 1)
+            elif len(self.fails) < 10 * self.MAXF:
                 self.fails.append(f)
+                have[f['key']] = f
         self.nfails += o.nfails
         self.caps.extend(o.caps)
         return self
